@@ -34,6 +34,9 @@ def real_particles():
 _REAL = None
 
 
+NUMBER_LIKE_NAMES = ["111", "310", "3122", "007", "1e3", "Inf", "nan", "2.5", "1E-2", "0"]
+
+
 class CZ(decio.Concretiser):
     """adds int ids (k*), jetset module words, real-particle names (R*), float-only literals"""
 
@@ -65,6 +68,22 @@ class CZ(decio.Concretiser):
             self._widths = used
             self._bind(a, w)
         return super().name(a)
+
+    def pyname(self, a):
+        """module / parameter name of a Pythia statement: a word like any other, now and then one spelled like a number
+        (Pythia 8 addresses particle data by PDG id: 111:mayDecay) - names are reported verbatim whatever they look like"""
+        key = "@" + a
+        if key not in self.words:
+            r = self._r("pyname", a)
+            if r.random() < 0.2:
+                for w in r.sample(NUMBER_LIKE_NAMES, len(NUMBER_LIKE_NAMES)):
+                    if w not in self.used:
+                        self.words[key] = w
+                        self.used.add(w)
+                        break
+            if key not in self.words:
+                self.words[key] = self.word(key)
+        return self.words[key]
 
     def lit(self, a):
         if a not in self.lits:
@@ -123,7 +142,7 @@ def render(cz, s):
     if k == "Particle":
         return f"Particle {cz.name(s['m'])} {cz.lit(s['mass'])}" + ("" if s["width"] == "none" else f" {cz.lit(s['width'])}")
     if k == "Pythia":
-        return f"{s['cmd']} {cz.word(s['mod'])}:{cz.word(s['par'])}={render_val(cz, s['val'])}"
+        return f"{s['cmd']} {cz.pyname(s['mod'])}:{cz.pyname(s['par'])}={render_val(cz, s['val'])}"
     if k == "JetSet":
         return f"JetSetPar {cz.jmod(s['mod'])}({cz.int_(s['num'], True)})={render_val(cz, s['val'])}"
     if k == "LS":
@@ -196,7 +215,7 @@ def build(args):
             for key, v in d.items():
                 mod, _, par = key.partition(":")
                 rv = rval(cz, v)
-                o["pythia"].append({"k": [cmd, cz.rword(mod)["v"], cz.rword(par)["v"]], "v": rv})
+                o["pythia"].append({"k": [cmd, cz.rword(mod)["v"].lstrip("@"), cz.rword(par)["v"].lstrip("@")], "v": rv})
         o["jetset"] = []
         for mod, d in p.dict_jetset_definitions().items():
             for num, v in d.items():
